@@ -145,12 +145,14 @@ Fixpoint playN (c : cfg) (na : nat) (sigma : strategy_t) (n : nat) (sn : st * nk
   | O => (sn, hist)
   | S n' => let '(sn', outs) := run_msgsN c na sn (sigma hist) in playN c na sigma n' sn' (outs :: hist)
   end.
-Definition gameN (c : cfg) (na : nat) (sigma : strategy_t) (n : nat) := playN c na sigma n (start c, Nk na false) [init_outs c].
+Definition gameN (c : cfg) (na : nat) (sigma : strategy_t) (n : nat) := playN c na sigma n (start c, Nk na false false None) [init_outs c].
 Definition finishedN (r : (st * nk) * list (list outev)) : Prop :=
   fsm (fst (fst r)) = CONNECTED \/ fsm (fst (fst r)) = CONNECTED_SASL \/ existsb (existsb is_abort) (snd r) = true.
 
 (* ---- stepN on messages that are no nick rejections is step ---- *)
-Definition plain (m : inmsg) : Prop := is43x m = false /\ is376 m = false /\ is_reset_msg m = false.
+Definition plain (m : inmsg) : Prop := is43x m = false /\ is376 m = false /\ is_reset_msg m = false /\ is_setter m = false.
+Lemma setter_id m n : is_setter m = false -> nick_setter m n = n.
+Proof. destruct m as [| |code [|a r]| | |]; try reflexivity. cbn [is_setter nick_setter]. intro H. rewrite H. reflexivity. Qed.
 
 Lemma runN_st c na ms : Forall (fun m => is43x m = false) ms -> forall s n,
   fst (fst (run_msgsN c na (s, n) ms)) = fst (run_msgs c s ms) /\ snd (run_msgsN c na (s, n) ms) = snd (run_msgs c s ms).
@@ -161,21 +163,17 @@ Proof.
   destruct (run_msgs c s1 ms) as [s3 o3]. cbn [fst snd] in *. destruct IH as [E1 E2]. subst. split; reflexivity.
 Qed.
 
-(* without a 376 and without an abort the nick state is untouched and afterConnect stays false *)
-Lemma runN_plain c na ms : Forall plain ms -> forall s n, after s = false ->
-  let r := run_msgsN c na (s, n) ms in
-  after (fst (fst r)) = false /\ (aborted (snd r) \/ snd (fst r) = n).
+(* without a 376 afterConnect stays false, and without a nick setter the current nick stays outside the alternates *)
+Lemma runN_plain c na ms : Forall plain ms -> forall s n, after s = false -> cur_alt n = None ->
+  after (fst (fst (run_msgsN c na (s, n) ms))) = false /\ cur_alt (snd (fst (run_msgsN c na (s, n) ms))) = None.
 Proof.
-  induction ms as [|m ms IH]; intros Hp s n Ha; [split; [exact Ha|right; reflexivity]|]. inversion Hp as [|m' ms' [Hm [Hm6 Hmr]] Hrest]; subst.
-  cbv zeta. cbn [run_msgsN]. unfold stepN. rewrite Hm.
+  induction ms as [|m ms IH]; intros Hp s n Ha Hc; [split; assumption|]. inversion Hp as [|m' ms' [Hm [Hm6 [Hmr Hms]]] Hrest]; subst.
+  cbn [run_msgsN]. unfold stepN. rewrite Hm, (setter_id m n Hms).
   pose proof (after_only_376 c s m Ha Hm6) as Ha1. destruct (step c s m) as [[s1 o1] e1]. cbn [rstate fst] in Ha1.
-  rewrite Hm6. cbn [andb].
-  match goal with |- context [run_msgsN c na (s1, ?n1) ms] => set (n1' := n1) end.
-  specialize (IH Hrest s1 n1' Ha1). cbv zeta in IH. destruct (run_msgsN c na (s1, n1') ms) as [[s2 n2] o2]. cbn [fst snd] in *.
-  destruct IH as [Ha2 Hn]. split; [exact Ha2|].
-  destruct (existsb is_abort o1) eqn:Eab; [left; apply aborted_app_l; exact Eab|].
-  destruct Hn as [H|H]; [left; apply aborted_app_r; exact H|].
-  right. subst n2. unfold n1'. rewrite Hmr. reflexivity.
+  rewrite Hm6, Hmr, Ha1. cbn [andb]. rewrite orb_false_r.
+  assert (Hc1 : cur_alt (if existsb is_abort o1 then Nk na false false None else n) = None) by (destruct (existsb is_abort o1); [reflexivity|exact Hc]).
+  specialize (IH Hrest s1 _ Ha1 Hc1). destruct (run_msgsN c na (s1, if existsb is_abort o1 then Nk na false false None else n) ms) as [[s2 n2] o2].
+  cbn [fst snd] in *. exact IH.
 Qed.
 
 (* ====================================================================== *)
@@ -208,6 +206,13 @@ Proof.
     destruct (seq_eqb cmd s_USER); [apply Hw|intro; subst; constructor].
 Qed.
 
+Lemma plain_num code x : mem code [903; 904; 906; 908] = true -> plain (INum code x).
+Proof.
+  intro H. apply mem_In in H. cbn [In] in H. repeat (destruct H as [H|H]; [subst code; repeat split; destruct x; vm_compute; reflexivity|]). destruct H.
+Qed.
+Lemma plain_iauth a b e : plain (IAuth a b e).
+Proof. repeat split. Qed.
+
 (* outside the welcome burst the answers contain no end of MOTD either *)
 Lemma answers_plain cap o r : is_trigger cap o = false -> answers cap o r -> Forall plain r.
 Proof.
@@ -223,9 +228,9 @@ Proof.
         intro Ht. rewrite Ht. intro H; subst; constructor.
       * intros _. destruct (seq_eqb cmd s_AUTH); [|intro; subst; constructor].
         destruct args as [|a rest]; [intro; subst; constructor|].
-        destruct (seq_eqb a s_STAR); [intros [x E]; subst r; constructor; [repeat split|constructor]|].
-        intros [E|[[x E]|[x [y E]]]]; subst r; repeat (constructor; [repeat split|]); constructor.
-    + intros _. destruct (final_chunk ch); [|intro; subst; constructor]. intros [x [E|E]]; subst r; (constructor; [repeat split|constructor]).
+        destruct (seq_eqb a s_STAR); [intros [x E]; subst r; constructor; [apply plain_num; reflexivity|constructor]|].
+        intros [E|[[x E]|[x [y E]]]]; subst r; repeat (constructor; [first [apply plain_iauth | apply plain_num; reflexivity]|]); constructor.
+    + intros _. destruct (final_chunk ch); [|intro; subst; constructor]. intros [x [E|E]]; subst r; (constructor; [apply plain_num; reflexivity|constructor]).
   - destruct o as [cmd args|ch b| | | | | ]; try (intros _ H; subst; constructor).
     intro Ht. rewrite Ht. intro H; subst; constructor.
 Qed.
@@ -300,10 +305,17 @@ Lemma rejection_is43x r : rejection_msg r -> exists m, r = [m] /\ is43x m = true
 Proof. intros [code [a [E H]]]. exists (INum code a). split; [exact E|]. destruct H as [H|[H|H]]; subst code; reflexivity. Qed.
 
 (* the bot answers every nick rejection with a NICK (an alternate, then random variants: always a new nick); nothing else changes *)
-Lemma step_rejection c na s n m : is43x m = true -> after s = false ->
-  stepN c na (s, n) m = ((s, fst (next_nick n)), [Send s_NICK []], None).
+Lemma is43x_not_setter m : is43x m = true -> is_setter m = false.
 Proof.
-  intros Hm Ha. unfold stepN. rewrite Hm, Ha. unfold next_nick. destruct (alts n) as [|a]; reflexivity.
+  destruct m as [| |code args| | |]; try discriminate. cbn [is43x is_setter]. intro H. destruct args; [reflexivity|].
+  apply orb_true_iff in H as [H|H]; [apply orb_true_iff in H as [H|H]|]; apply N.eqb_eq in H; subst code; vm_compute; reflexivity.
+Qed.
+Lemma step_rejection c na s n m : is43x m = true -> after s = false -> cur_alt n = None ->
+  stepN c na (s, n) m = ((s, fst (next_nick n)), [Send s_NICK []], None) /\ cur_alt (fst (next_nick n)) = None.
+Proof.
+  intros Hm Ha Hc. unfold stepN. rewrite Hm, Ha, (setter_id m n (is43x_not_setter m Hm)). unfold next_nick. rewrite Hc.
+  destruct (alts n) as [|a]; [|split; reflexivity].
+  destruct (renamed n && negb (tried n)); split; try reflexivity; exact Hc.
 Qed.
 
 (* ====================================================================== *)
@@ -391,7 +403,7 @@ Qed.
 
 (* the lifted invariant: J = rounds still needed *)
 Definition InvN (J : nat) (s : st) (n : nk) (b : list outev) (t : sst) : Prop :=
-  after s = false /\
+  after s = false /\ cur_alt n = None /\
   ((due t = false /\ exists j b0, (if bad t then BaseP j s b0 else BaseS j s b0) /\
       b = (if bad t then [Send s_NICK []] else []) ++ b0 /\ J = (j + rej t)%nat) \/
    (due t = true /\ bad t = true /\ b = [Send s_NICK []] /\ pre3 s /\ J = rej t)).
@@ -400,32 +412,33 @@ Definition Goal (J : nat) (t' : sst) (r : (st * nk) * list outev) : Prop :=
   aborted (snd r) \/ fsm (fst (fst r)) = CONNECTED \/ exists J', (J' < J)%nat /\ InvN J' (fst (fst r)) (snd (fst r)) (snd r) t'.
 
 (* the server holds no rejected nick while it answers b0 *)
-Lemma plain_round j s n b0 rm t' : after s = false -> BaseS j s b0 -> answers_batch cap b0 rm ->
+Lemma plain_round j s n b0 rm t' : after s = false -> cur_alt n = None -> BaseS j s b0 -> answers_batch cap b0 rm ->
   bad t' = false -> due t' = false ->
   Goal (j + rej t') t' (run_msgsN c na (s, n) rm).
 Proof.
-  intros Ha Hb Hans Hbad Hdue. unfold Goal.
+  intros Ha Hca Hb Hans Hbad Hdue. unfold Goal.
   destruct (runN_st c na rm (batch_no43x cap b0 rm Hans) s n) as [E1 E2].
   destruct (classify j s b0 Hb) as [Hnt|[Hp3 [_ [Hw _]]]].
-  - pose proof (runN_plain c na rm (batch_plain cap b0 Hnt rm Hans) s n Ha) as Hpl. cbv zeta in Hpl.
+  - pose proof (runN_plain c na rm (batch_plain cap b0 Hnt rm Hans) s n Ha Hca) as [Ha' Hca'].
     pose proof (base_round j s b0 rm Hb Hans) as Hbase. cbv zeta in Hbase.
     destruct (run_msgsN c na (s, n) rm) as [[s' n'] o']. destruct (run_msgs c s rm) as [s'' o'']. cbn [fst snd] in *. subst s'' o''.
-    destruct Hpl as [Ha' Hn]. destruct Hbase as [H|[H|[j' [Hj H]]]]; [left; exact H|right; left; exact H|].
-    destruct Hn as [Hn|Hn]; [left; exact Hn|]. subst n'. right. right. exists (j' + rej t')%nat. split; [lia|].
-    split; [exact Ha'|]. left. split; [exact Hdue|]. exists j', o'. rewrite Hbad. split; [apply BaseP_S; exact H|]. split; reflexivity.
+    destruct Hbase as [H|[H|[j' [Hj H]]]]; [left; exact H|right; left; exact H|].
+    right. right. exists (j' + rej t')%nat. split; [lia|].
+    split; [exact Ha'|]. split; [exact Hca'|]. left. split; [exact Hdue|]. exists j', o'. rewrite Hbad. split; [apply BaseP_S; exact H|]. split; reflexivity.
   - pose proof (welcome_run c rm (Hw rm Hans) s Hp3) as H.
     destruct (run_msgsN c na (s, n) rm) as [[s' n'] o']. destruct (run_msgs c s rm) as [s'' o'']. cbn [fst snd] in *. subst s'' o''.
     destruct H as [H|H]; [left|right; left]; exact H.
 Qed.
 
 (* the server rejects the nick (r0) and answers b0 while holding the rejected nick *)
-Lemma bad_round j s n b0 r0 rm t' : after s = false -> BaseS j s b0 -> rejection_msg r0 ->
+Lemma bad_round j s n b0 r0 rm t' : after s = false -> cur_alt n = None -> BaseS j s b0 -> rejection_msg r0 ->
   answers_batch cap (filter (nt cap) b0) rm -> bad t' = true -> due t' = existsb (is_trigger cap) b0 ->
   Goal (j + rej t' + 1) t' (run_msgsN c na (s, n) (r0 ++ rm)).
 Proof.
-  intros Ha Hb Hr0 Hans Hbad Hdue. unfold Goal.
-  destruct (rejection_is43x r0 Hr0) as [m [E Hm]]. subst r0. cbn [app run_msgsN]. rewrite (step_rejection c na s n m Hm Ha).
-  set (n1 := fst (next_nick n)).
+  intros Ha Hca Hb Hr0 Hans Hbad Hdue. unfold Goal.
+  destruct (rejection_is43x r0 Hr0) as [m [E Hm]]. subst r0. cbn [app run_msgsN].
+  destruct (step_rejection c na s n m Hm Ha Hca) as [Est Hca1]. rewrite Est.
+  set (n1 := fst (next_nick n)) in *.
   destruct (classify j s b0 Hb) as [Hnt|[Hp3 [Hex [_ Hsil]]]].
   - assert (Ef : filter (nt cap) b0 = b0).
     { apply filter_all. eapply Forall_impl; [|exact Hnt]. intros o Ho. unfold nt. rewrite Ho. reflexivity. }
@@ -434,16 +447,16 @@ Proof.
     { rewrite Hdue. destruct (existsb (is_trigger cap) b0) eqn:Ee; [|reflexivity]. apply existsb_exists in Ee as [o [Hin Ho]].
       rewrite Forall_forall in Hnt. rewrite (Hnt o Hin) in Ho. discriminate. }
     destruct (runN_st c na rm (batch_no43x cap b0 rm Hans) s n1) as [E1 E2].
-    pose proof (runN_plain c na rm (batch_plain cap b0 Hnt rm Hans) s n1 Ha) as Hpl. cbv zeta in Hpl.
+    pose proof (runN_plain c na rm (batch_plain cap b0 Hnt rm Hans) s n1 Ha Hca1) as [Ha' Hca'].
     pose proof (base_round j s b0 rm Hb Hans) as Hbase. cbv zeta in Hbase.
     destruct (run_msgsN c na (s, n1) rm) as [[s' n'] o']. destruct (run_msgs c s rm) as [s'' o'']. cbn [fst snd] in *. subst s'' o''.
-    destruct Hpl as [Ha' Hn']. destruct Hbase as [H|[H|[j' [Hj H]]]].
+    destruct Hbase as [H|[H|[j' [Hj H]]]].
     + left. apply aborted_app_r. exact H.
     + right. left. exact H.
-    + destruct Hn' as [Hn'|Hn']; [left; apply aborted_app_r; exact Hn'|]. subst n'. right. right. exists (j' + rej t')%nat. split; [lia|].
-      split; [exact Ha'|]. left. split; [exact Hd|]. exists j', o'. rewrite Hbad. split; [exact H|]. split; reflexivity.
+    + right. right. exists (j' + rej t')%nat. split; [lia|].
+      split; [exact Ha'|]. split; [exact Hca'|]. left. split; [exact Hd|]. exists j', o'. rewrite Hbad. split; [exact H|]. split; reflexivity.
   - rewrite (Hsil rm Hans). cbn [run_msgsN fst snd app]. right. right. exists (rej t'). split; [lia|].
-    split; [exact Ha|]. right. rewrite Hdue, Hex. repeat split; assumption.
+    split; [exact Ha|]. split; [exact Hca1|]. right. rewrite Hdue, Hex. repeat split; assumption.
 Qed.
 End Lift.
 
@@ -466,7 +479,7 @@ Qed.
 Lemma lift_round J s n b t resp t' : InvN c cap J s n b t -> roundR cap t b resp t' ->
   Goal c cap J t' (run_msgsN c na (s, n) resp).
 Proof.
-  intros [Ha Hcase] [fr [r0 [t0 [rm [Hpre [Hbatch Eresp]]]]]]. subst resp.
+  intros [Ha [Hca Hcase]] [fr [r0 [t0 [rm [Hpre [Hbatch Eresp]]]]]]. subst resp.
   destruct Hcase as [[Hdue [j [b0 [Hbase [Eb EJ]]]]]|[Hdue [Hbad [Eb [Hp3 EJ]]]]].
   - (* the registration is in progress *)
     destruct Hpre as [[Efr [Er0 Et0]]|[Efr [Hbad0 [Hpos [Hr0 Et0]]]]]; subst fr t0.
@@ -479,24 +492,24 @@ Proof.
            destruct (BN_bad cap false (Sst (pred (rej t)) (due t) true) b0 rs t' eq_refl (or_intror (phases_no_nick c cap j s b0 Hbase)) Hr) as [Hans [B1 [B2 B3]]].
            cbn [rej due] in B2, B3. rewrite Hdue in B3. cbn [orb] in B3.
            assert (G : Goal c cap (j + rej t' + 1) t' (run_msgsN c na (s, n) (r ++ rs))).
-           { apply (bad_round c Hok na cap j s n b0 r rs t' Ha (BaseP_S c cap j s b0 Hbase)); try assumption; try lia. }
+           { apply (bad_round c Hok na cap j s n b0 r rs t' Ha Hca (BaseP_S c cap j s b0 Hbase)); try assumption; try lia. }
            unfold Goal in *. destruct G as [G|[G|[J' [HJ G]]]]; [left; exact G|right; left; exact G|right; right; exists J'; split; [lia|exact G]].
         -- (* accepted *)
            rewrite Hdue in Hr1. subst r. cbn [app].
            destruct (BN_plain cap false (Sst (rej t) false false) b0 rs t' eq_refl Hr) as [Hans Et']. subst t'. cbn [rej] in *.
-           pose proof (plain_round c Hok na cap j s n b0 rs (Sst (rej t) false false) Ha (BaseP_S c cap j s b0 Hbase) Hans eq_refl eq_refl) as G.
+           pose proof (plain_round c Hok na cap j s n b0 rs (Sst (rej t) false false) Ha Hca (BaseP_S c cap j s b0 Hbase) Hans eq_refl eq_refl) as G.
            unfold Goal in *. cbn [rej] in G. destruct G as [G|[G|[J' [HJ G]]]]; [left; exact G|right; left; exact G|right; right; exists J'; split; [lia|exact G]].
       * (* plain *)
         subst b. cbn [app] in Hbatch. destruct (BN_plain cap false _ _ _ _ Hbad Hbatch) as [Hans Et']. subst t'.
         assert (G : Goal c cap (j + rej t) t (run_msgsN c na (s, n) rm)).
-        { apply (plain_round c Hok na cap j s n b0 rm t Ha Hbase Hans); assumption. }
+        { apply (plain_round c Hok na cap j s n b0 rm t Ha Hca Hbase Hans); assumption. }
         unfold Goal in *. destruct G as [G|[G|[J' [HJ G]]]]; [left; exact G|right; left; exact G|right; right; exists J'; split; [lia|exact G]].
     + (* the nick is rejected at the start of the response *)
       rewrite Hbad0 in *. subst b. cbn [app] in Hbatch.
       destruct (BN_bad cap true (Sst (pred (rej t)) (due t) true) b0 rm t' eq_refl (or_introl eq_refl) Hbatch) as [Hans [B1 [B2 B3]]].
       cbn [rej due] in B2, B3. rewrite Hdue in B3. cbn [orb] in B3.
       assert (G : Goal c cap (j + rej t' + 1) t' (run_msgsN c na (s, n) (r0 ++ rm))).
-      { apply (bad_round c Hok na cap j s n b0 r0 rm t' Ha Hbase); try assumption; try lia. }
+      { apply (bad_round c Hok na cap j s n b0 r0 rm t' Ha Hca Hbase); try assumption; try lia. }
       unfold Goal in *. destruct G as [G|[G|[J' [HJ G]]]]; [left; exact G|right; left; exact G|right; right; exists J'; split; [lia|exact G]].
   - (* the welcome burst is withheld: the batch is the replacement NICK *)
     destruct Hpre as [[Efr [Er0 Et0]]|[Efr [Hbad0 _]]]; [|rewrite Hbad in Hbad0; discriminate]. subst fr t0 r0 b. cbn [app].
@@ -504,9 +517,9 @@ Proof.
     unfold answersN in H1. cbn [is_nick_out] in H1. change (seq_eqb s_NICK s_NICK) with true in H1. rewrite Hbad in H1. cbn [orb negb] in H1.
     destruct H1 as [[Hr1 [Hpos Et2]]|[Et2 Hr1]]; subst t'.
     + (* rejected again *)
-      destruct (rejection_is43x r Hr1) as [m [E Hm]]. subst r. cbn [run_msgsN]. rewrite (step_rejection c na s n m Hm Ha).
+      destruct (rejection_is43x r Hr1) as [m [E Hm]]. subst r. cbn [run_msgsN]. destruct (step_rejection c na s n m Hm Ha Hca) as [Est Hca1]. rewrite Est.
       cbn [fst snd app]. right. right. exists (pred (rej t)). split; [lia|].
-      unfold InvN. cbn [fst snd rej alts due bad]. split; [exact Ha|]. right. repeat split; assumption.
+      unfold InvN. cbn [fst snd rej alts due bad]. split; [exact Ha|]. split; [exact Hca1|]. right. repeat split; assumption.
     + (* accepted: the welcome burst *)
       rewrite Hdue in Hr1. destruct (runN_st c na r (welcome_no43x r Hr1) s n) as [E1 E2].
       pose proof (welcome_run c r Hr1 s Hp3) as H. unfold Goal.
@@ -540,12 +553,12 @@ Proof.
   assert (Hst : after (start c) = false).
   { unfold start, reset, queue_connect, fresh, send, emit, transition. cbn [zombie]. destruct (c_password c); reflexivity. }
   destruct cap.
-  - destruct (reachN c Hok na true sigma tau Htau (2 * MM c + 2 + K)%nat (start c) (Nk na false) (init_outs c) []) as [k [Hk Hf]].
-    + rewrite Hinit. split; [exact Hst|]. left. split; [reflexivity|].
+  - destruct (reachN c Hok na true sigma tau Htau (2 * MM c + 2 + K)%nat (start c) (Nk na false false None) (init_outs c) []) as [k [Hk Hf]].
+    + rewrite Hinit. split; [exact Hst|]. split; [reflexivity|]. left. split; [reflexivity|].
       exists (2 * MM c + 2)%nat, (init_outs c). cbn [bad rej app]. split; [left; repeat split|]. split; reflexivity.
     + exists k. split; [unfold MM in Hk; lia|exact Hf].
-  - destruct (reachN c Hok na false sigma tau Htau (0 + K)%nat (start c) (Nk na false) (init_outs c) []) as [k [Hk Hf]].
-    + rewrite Hinit. split; [exact Hst|]. left. split; [reflexivity|].
+  - destruct (reachN c Hok na false sigma tau Htau (0 + K)%nat (start c) (Nk na false false None) (init_outs c) []) as [k [Hk Hf]].
+    + rewrite Hinit. split; [exact Hst|]. split; [reflexivity|]. left. split; [reflexivity|].
       exists 0%nat, (init_outs c). cbn [bad rej app]. split; [repeat split|]. split; reflexivity.
     + exists k. split; [lia|exact Hf].
 Qed.
